@@ -217,8 +217,8 @@ def oracle(rc):
     for m in msgs:
         full_by_uuid.setdefault(m["task_uuid"], []).append(m)
     # reference: emission order, against the model
-    O.account(msgs, rc.model)
-    O.check_forest(msgs, rc.model, order_free=False)
+    O.account(msgs, rc.model, lenient=True)
+    O.check_forest(msgs, rc.model, order_free=False, lenient=True, fields=False)
     ref = deliver(msgs, full_by_uuid, "emission order")
     h = hashlib.blake2b(digest_size=6)
     kinds = []
